@@ -474,6 +474,14 @@ Arguments WBody {A} e.
 
 Definition varinfo_none (v : varinfo) : bool := match v with VINone => true | _ => false end.
 
+(** [import] after the header: node section, [.end], roots *)
+Definition import_body (k : kind) (slm : list N) (nlevels : N) (h : header) (rest : list byte)
+  : wres (header * ist * list cedge) :=
+  match import_file k (h_ascii h) (varinfo_none (h_varinfo h)) slm nlevels (h_nnodes h) (h_rootids h) rest with
+  | Ok (st, roots) => WOk (h, st, roots)
+  | Err e => WBody e
+  end.
+
 (** [slm] = [suppvar_level_map] (level of the manager variable chosen for every support
     variable, in the order of [support_vars]), [nlevels] = [manager.num_levels()] *)
 Definition import_whole (k : kind) (slm : list N) (nlevels : N) (inp : list byte)
@@ -482,11 +490,21 @@ Definition import_whole (k : kind) (slm : list N) (nlevels : N) (inp : list byte
   | HErr e => WHdr e
   | HOk (h, rest) =>
     if negb (Nat.eqb (length slm) (length (h_ids h))) then WPre
-    else
-      match import_file k (h_ascii h) (varinfo_none (h_varinfo h)) slm nlevels (h_nnodes h) (h_rootids h) rest with
-      | Ok (st, roots) => WOk (h, st, roots)
-      | Err e => WBody e
-      end
+    else import_body k slm nlevels h rest
+  end.
+
+(** The same function with a short cut for the extracted code: every node takes at least one
+    byte, so a header that announces more nodes than there are bytes left leads to an error
+    (the real importer runs into the end of the file; [N.to_nat] of an absurd [.nnodes] would
+    not terminate in practice).  Proved equivalent to [import_whole] up to the error value. *)
+Definition import_whole_guarded (k : kind) (slm : list N) (nlevels : N) (inp : list byte)
+  : wres (header * ist * list cedge) :=
+  match load_header inp with
+  | HErr e => WHdr e
+  | HOk (h, rest) =>
+    if negb (Nat.eqb (length slm) (length (h_ids h))) then WPre
+    else if N.of_nat (length rest) <? h_nnodes h then WBody EEof
+    else import_body k slm nlevels h rest
   end.
 
 (** ** the exporter's header: export.rs [export_common] up to [".nodes\n"] *)
